@@ -260,6 +260,28 @@ class Values(Relation):
                 tgt[key] = 'changed-value'
                 what = f'{attr}[{key!r}] changed'
             self._unequal(ctx, cls, R, P, what)
+            # ... and differs from it in exactly that field (the copy's
+            # meta/visual is its own: not, say, its first operand's)
+            fpp = param_fps(P)
+            others = [q for q in fpp if q != attr and fpp[q] != fp0[q]]
+            ctx.check(not others, f'{cls} | editing the {attr} of a copy '
+                      f'also changes its {others}')
+            # copy(meta={}) / copy(visual={}): an explicitly empty value is a
+            # value
+            E = R.copy(**{attr: {}})
+            fpe = param_fps(E)
+            ctx.check(len(getattr(E, attr)) == 0,
+                      f'{cls} | copy({attr}={{}}) is not empty',
+                      lambda: f'{dict(getattr(E, attr))}')
+            others = [q for q in fpe if q != attr and fpe[q] != fp0[q]]
+            ctx.check(not others,
+                      f'{cls} | copy({attr}={{}}) also changes {others}')
+            getattr(E, attr)['comment' if attr == 'meta' else 'color'] = 'e'
+            fpe = param_fps(E)
+            others = [q for q in fpe if q != attr and fpe[q] != fp0[q]]
+            ctx.check(not others and param_fps(R) == fp0,
+                      f'{cls} | editing the {attr} of copy({attr}={{}}) also '
+                      f'changes {others or "the original"}')
             nt = True
         elif how == 'class':
             other = S.build(_other_class(rs))
